@@ -82,6 +82,13 @@ pub static OPS: &[Op] = &[
         };
         (show_d(r), show_total(clamp_mul(a[0].int(), unit_ns(a[1].unit()))))
     }},
+    // ---------------------------------------------------------------- C18 float interop (Unit x f64), bit patterns
+    Op { name: "unit_mul_f64", sig: &[Ty::Unit, Ty::U64], pre: always, f: |a| {
+        let q = f64::from_bits(a[1].int() as u64);
+        let factor = unit_ns(a[0].unit()) as f64;
+        let p = q * factor;
+        (show_d(a[0].unit() * q), show_total(clamp(p as i128)))
+    }},
     // ---------------------------------------------------------------- C01 arithmetic
     Op { name: "add", sig: &[Ty::Dur, Ty::Dur], pre: always, f: |a| {
         (show_d(a[0].dur() + a[1].dur()), show_total(clamp(a[0].total() + a[1].total())))
@@ -371,6 +378,24 @@ pub static OPS: &[Op] = &[
             else if must_reject(y, mo, d, 23, 59, 60, 0) && r.is_ok() { format!("{}-{}-{}T23:59:60 accepted although no leap second was inserted", y, mo, d) } else { "ok".to_string() };
         (verdict, "ok".to_string())
     }},
+    // ---------------------------------------------------------------- C09 Epoch -> Gregorian fields
+    Op { name: "gregorian_roundtrip", sig: &[Ty::I32, Ty::U8, Ty::U8, Ty::U8, Ty::U8, Ty::U8, Ty::U32, Ty::Ts], pre: |a| {
+        a[0].int().abs() <= 30_000 && strict_valid(a[0].int(), a[1].int(), a[2].int(), a[3].int(), a[4].int(), a[5].int(), a[6].int()) && a[5].int() < 60
+    }, f: |a| {
+        let (y, mo, d, h, mi, s, ns) = (a[0].int(), a[1].int(), a[2].int(), a[3].int(), a[4].int(), a[5].int(), a[6].int());
+        let e = Epoch::maybe_from_gregorian(y as i32, mo as u8, d as u8, h as u8, mi as u8, s as u8, ns as u32, a[7].ts()).unwrap();
+        let got = gregorian_fields(e);
+        (format!("{:?}", got), format!("{:?}", (y as i32, mo as u8, d as u8, h as u8, mi as u8, s as u8, ns as u32)))
+    }},
+    Op { name: "gregorian_fields_of_instant", sig: &[Ty::Dur, Ty::Ts], pre: |a| a[0].total().abs() < 95 * NPC, f: |a| {
+        // decomposing any instant gives valid fields that rebuild the identical epoch
+        let e = Epoch::from_duration(a[0].dur(), a[1].ts());
+        let (y, mo, d, h, mi, s, ns) = gregorian_fields(e);
+        let valid = strict_valid(y as i128, mo as i128, d as i128, h as i128, mi as i128, s as i128, ns as i128) && s < 60;
+        let back = Epoch::maybe_from_gregorian(y, mo, d, h, mi, s, ns, a[1].ts());
+        let same = match back { Ok(b) => b.duration.to_parts() == e.duration.to_parts() && b.time_scale == e.time_scale, Err(_) => false };
+        (if valid && same { "ok".to_string() } else { format!("fields {:?} valid={} rebuilds_identical={}", (y, mo, d, h, mi, s, ns), valid, same) }, "ok".to_string())
+    }},
     Op { name: "gregorian_build", sig: &[Ty::I32, Ty::U8, Ty::U8, Ty::U8, Ty::U8, Ty::U8, Ty::U32, Ty::Ts], pre: |a| {
         a[0].int().abs() <= 100_000 && strict_valid(a[0].int(), a[1].int(), a[2].int(), a[3].int(), a[4].int(), a[5].int(), a[6].int()) && a[5].int() < 60
     }, f: |a| {
@@ -449,6 +474,23 @@ pub static OPS: &[Op] = &[
          format!("{} {} {:?} {:?}", show_total(a[0].total() + kn * DAY_NS), show_total(a[0].total() - kp * DAY_NS), a[1].ts(), a[1].ts()))
     }},
 ];
+
+/// the Gregorian fields of an epoch in its own time scale, through the public API
+pub fn gregorian_fields(e: Epoch) -> (i32, u8, u8, u8, u8, u8, u32) {
+    // to_gregorian_str formats compute_gregorian(self.to_duration_in_time_scale(ts), ts); parse the numbers back
+    let s = e.to_gregorian_str(e.time_scale);
+    let (date, rest) = s.split_once('T').expect("T");
+    let neg = date.starts_with('-');
+    let dparts: Vec<&str> = date.trim_start_matches('-').split('-').collect();
+    let y: i32 = dparts[0].parse::<i32>().expect("year") * if neg { -1 } else { 1 };
+    let mo: u8 = dparts[1].parse().expect("month");
+    let d: u8 = dparts[2].parse().expect("day");
+    let time = rest.split(' ').next().unwrap();
+    let (hms, frac) = match time.split_once('.') { Some((a, b)) => (a, b), None => (time, "0") };
+    let t: Vec<&str> = hms.split(':').collect();
+    let ns: u32 = if frac == "0" { 0 } else { frac.parse().expect("nanos") };
+    (y, mo, d, t[0].parse().unwrap(), t[1].parse().unwrap(), t[2].parse().unwrap(), ns)
+}
 
 fn conv_ok(total: i128, src: TimeScale, dst: TimeScale) -> bool {
     match (scale_zero(src), scale_zero(dst)) {
